@@ -123,6 +123,8 @@ Pat16(x) == x % 65536
 BitOp2(op, dt, x, y) == LET a == Pat16(x)  b == Pat16(y)
                             r == CASE op = "bitwise_and" -> a & b [] op = "bitwise_or" -> a | b [] OTHER -> a ^^ b
                         IN IF Kind(dt) = "u" THEN r ELSE (IF r >= 32768 THEN r - 65536 ELSE r)
+\* ... which is exact only for operands in the 16-bit signed range when the loop dtype is wider than 16 bits
+BitInRegime(f, dt, x, y) == (f \in BitOps /\ Bits(dt) > 16) => (x \in -32768..32767 /\ y \in -32768..32767)
 F2(f, dt, x, y) ==
   LET fl == IsFlt(dt)
       lt == IF fl THEN QLess(x, y) ELSE x < y
